@@ -230,6 +230,12 @@ class Formatter:
         parts = [self.dispatch(json["value"], prec)]
         if "filter" in json:
             parts.append(f"FILTER (WHERE {self.dispatch(json['filter'])})")
+        if "within" in json:
+            # WITHIN GROUP (
+            #             ORDER BY public.persentil.sale
+            #           )
+            ob = self.orderby(json["within"], 100)
+            parts.append(f"WITHIN GROUP ({ob})")
         if "over" in json:
             over = json["over"]
             parts.append("OVER")
@@ -284,12 +290,6 @@ class Formatter:
 
             window = " ".join(window)
             parts.append(f"({window})")
-        if "within" in json:
-            # WITHIN GROUP (
-            #             ORDER BY public.persentil.sale
-            #           )
-            ob = self.orderby(json["within"], 100)
-            parts.append(f"WITHIN GROUP ({ob})")
         if "name" in json:
             parts.extend(["AS", self.dispatch(json["name"])])
         if "tablesample" in json:
